@@ -13,7 +13,7 @@
      RSync C w k r  wf_fs w, the root is a directory, WInv, Cover, kernel queue empty
      mask_ok C      the event mask contains IN_CREATE, IN_MOVED_FROM, IN_MOVED_TO (WATCHDOG_ALL does) *)
 Require Import WD.Base.Prelude WD.Base.BStr WD.Model.SubEvents WD.Model.Emitter WD.Model.Fs WD.Model.Reader
-               WD.Model.Pipeline WD.Proofs.CoverProofs.
+               WD.Model.Pipeline WD.Proofs.CoverProofs WD.Proofs.ReplayPipeProofs.
 
 (* ---- 1. well-formed file systems are closed under every applicable operation on normal paths *)
 Theorem C02_wf_preserved : forall w o w', wf_fs w -> op_np o -> apply_op w o = Some w' -> wf_fs w'.
@@ -56,7 +56,8 @@ Print Assumptions C02_step_mkdir.
 Theorem C02_step_rmdir : forall C w k r p w', RSync C w k r -> npath p -> p <> c_root C ->
   apply_op w (Rmdir p) = Some w' ->
   let k1 := kernel_op k (w_fs w) (Rmdir p) in
-  exists r' k' evs, read_batch C (w_fs w') (r, drainq k1, []) (k_queue k1) = Done (r', k', evs) /\ RSync C w' k' r'.
+  exists r' k' evs, read_batch C (w_fs w') (r, drainq k1, []) (k_queue k1) = Done (r', k', evs) /\ RSync C w' k' r' /\
+    Forall (rsafe C) evs.          (* no raw event announces the end of the root: the pipeline stays alive *)
 Proof. exact step_rmdir. Qed.
 Print Assumptions C02_step_rmdir.
 
@@ -82,6 +83,60 @@ Theorem C02_step_rename_dir_inside : forall C w k r p q w' ep, RSync C w k r -> 
 Proof. exact step_rename_dir_inside. Qed.
 Print Assumptions C02_step_rename_dir_inside.
 
+(* Rename of a directory of the tree over an EMPTY directory of the tree: the re-key as above; the replaced directory's
+   watch is dropped by the kernel and its IN_IGNORED takes its wd out of _path_for_wd while _wd_for_path[q] already
+   belongs to the moved directory (the repaired `.get(path) == wd` test of F1 is what makes this work) *)
+Theorem C02_step_rename_dir_over : forall C w k r p q w' ep v, RSync C w k r -> npath p -> npath q ->
+  c_recursive C = true -> N.land IN_MOVED_FROM (c_mask C) <> 0%N -> N.land IN_MOVED_TO (c_mask C) <> 0%N ->
+  apply_op w (Rename p q) = Some w' ->
+  flookup p (w_fs w) = Some ep -> f_dir ep = true -> scope C p -> p <> c_root C -> scope C q -> q <> c_root C ->
+  flookup q (w_fs w) = Some v -> f_dir v = true ->
+  let k1 := kernel_op k (w_fs w) (Rename p q) in
+  exists r' k' evs, read_batch C (w_fs w') (r, drainq k1, []) (k_queue k1) = Done (r', k', evs) /\ RSync C w' k' r' /\
+    Forall (rsafe C) evs.
+Proof. exact step_rename_dir_over. Qed.
+Print Assumptions C02_step_rename_dir_over.
+
+(* Rename of a directory into the tree from outside (to a fresh name, repaired code): add_dirs over walk_dirs covers
+   the arrived directory and every directory below it *)
+Theorem C02_step_rename_dir_in : forall C, c_faults C = [] -> forall w k r p q w' ep, RSync C w k r -> npath p -> npath q ->
+  c_recursive C = true -> c_fix_movein C = true ->
+  N.land IN_MOVED_FROM (c_mask C) <> 0%N -> N.land IN_MOVED_TO (c_mask C) <> 0%N ->
+  apply_op w (Rename p q) = Some w' ->
+  flookup p (w_fs w) = Some ep -> f_dir ep = true -> ~ scope C p -> under p (c_root C) = false -> scope C q ->
+  flookup q (w_fs w) = None ->
+  let k1 := kernel_op k (w_fs w) (Rename p q) in
+  exists r' k' evs, read_batch C (w_fs w') (r, drainq k1, []) (k_queue k1) = Done (r', k', evs) /\ RSync C w' k' r'.
+Proof. exact step_rename_dir_in. Qed.
+Print Assumptions C02_step_rename_dir_in.
+
+(* Rename of a directory out of the tree: everything under the root is still covered.  The kernel watches of the
+   departed directories and their entries in both maps stay behind - known finding F10 - so the conclusion is Cover,
+   not RSync, and the sequential theorem stops here. *)
+Theorem C02_step_rename_dir_out : forall C w k r p q w' ep, RSync C w k r -> npath p -> npath q -> c_recursive C = true ->
+  N.land IN_MOVED_FROM (c_mask C) <> 0%N -> N.land IN_MOVED_TO (c_mask C) <> 0%N ->
+  apply_op w (Rename p q) = Some w' -> flookup p (w_fs w) = Some ep -> f_dir ep = true ->
+  scope C p -> p <> c_root C -> ~ scope C q ->
+  let k1 := kernel_op k (w_fs w) (Rename p q) in
+  exists r' k' evs, read_batch C (w_fs w') (r, drainq k1, []) (k_queue k1) = Done (r', k', evs) /\
+    wf_fs w' /\ isdir_in (c_root C) (w_fs w') /\ Cover C (w_fs w') k' r' /\ k_queue k' = [] /\
+    wfp r' = wfp r /\ pfw r' = pfw r /\ k_watches k' = k_watches k.
+Proof. exact step_rename_dir_out. Qed.
+Print Assumptions C02_step_rename_dir_out.
+
+(* Rename of a directory under a non-recursive watch, or entirely outside the tree (target absent or an empty
+   directory): both maps unchanged *)
+Theorem C02_step_rename_dir_plain : forall C w k r p q w' ep, RSync C w k r -> npath p -> npath q ->
+  N.land IN_MOVED_FROM (c_mask C) <> 0%N -> N.land IN_MOVED_TO (c_mask C) <> 0%N ->
+  apply_op w (Rename p q) = Some w' -> flookup p (w_fs w) = Some ep -> f_dir ep = true ->
+  p <> c_root C -> q <> c_root C -> under p (c_root C) = false ->
+  (c_recursive C = false \/ (~ scope C p /\ ~ scope C q)) ->
+  let k1 := kernel_op k (w_fs w) (Rename p q) in
+  exists r' k' evs, read_batch C (w_fs w') (r, drainq k1, []) (k_queue k1) = Done (r', k', evs) /\ RSync C w' k' r' /\
+    wfp r' = wfp r /\ pfw r' = pfw r.
+Proof. exact step_rename_dir_plain. Qed.
+Print Assumptions C02_step_rename_dir_plain.
+
 (* the re-key loop by itself: run on its own key list, every binding below src moves to the same suffix below dst
    (j2 of RK), _path_for_wd follows, nothing else changes (j1, j3), and no key below src is left *)
 Theorem C02_rekey_loop : forall src dst, src <> [] -> (forall rest, under src (dst ++ sep :: rest) = false) ->
@@ -96,8 +151,9 @@ Print Assumptions C02_rekey_loop.
 Theorem C02_cover_step : forall C, c_faults C = [] -> forall w k r o w', mask_ok C -> RSync C w k r ->
   covered_op C w o -> apply_op w o = Some w' ->
   let k1 := kernel_op k (w_fs w) o in
-  exists r' k' evs, read_batch C (w_fs w') (r, drainq k1, []) (k_queue k1) = Done (r', k', evs) /\ RSync C w' k' r'.
-Proof. exact cover_step. Qed.
+  exists r' k' evs, read_batch C (w_fs w') (r, drainq k1, []) (k_queue k1) = Done (r', k', evs) /\ RSync C w' k' r' /\
+    Forall (rsafe C) evs.
+Proof. exact cover_step_safe. Qed.
 Print Assumptions C02_cover_step.
 
 (* the same on the pipeline: [AOp o; ARead (whole queue)] from a state whose reader-side buffer is idle *)
@@ -121,10 +177,11 @@ Definition C02_cover_sequential_full : Prop :=
                          Cover C (w_fs w') k' r'.
 (* PROVED PART: the extra hypothesis is [ops_covered]: every applicable operation of the history is one of
    Touch / Write / Chmod / Unlink / Mkdir / Rmdir (not the root) / Rename of a file (any direction, replacing or not) /
-   Rename of a directory inside the tree to a fresh name (recursive watch).
-   NOT covered (kept in the full statement only): a directory moved into the tree from outside, a directory moved
-   out of the tree (Cover survives, WInv does not - finding F10), a directory renamed over an empty directory,
-   directory renames under a non-recursive watch or entirely outside the tree. *)
+   Rename of a directory inside the tree to a fresh name (recursive watch) / into the tree from outside to a fresh name
+   (recursive watch, repaired code) / under a non-recursive watch / entirely outside the tree.
+   / over an empty directory of the tree.
+   NOT covered (kept in the full statement only): a directory moved out of the tree (Cover survives, WInv does not -
+   finding F10), a directory moved in from outside over an empty directory of the tree, operations on the root itself. *)
 Theorem C02_cover_sequential_partial : forall C, c_faults C = [] -> forall ops, mask_ok C -> forall w k r,
   RSync C w k r -> ops_covered C w ops ->
   exists w' k' r', rrun C w k r ops = Some (w', k', r') /\ RSync C w' k' r'.
@@ -137,6 +194,22 @@ Theorem C02_cover_from_start_partial : forall C, c_faults C = [] -> forall ops w
                          wf_fs w' /\ Cover C (w_fs w') k' r'.
 Proof. exact cover_from_start. Qed.
 Print Assumptions C02_cover_from_start_partial.
+
+(* the same on the Pipeline model, through DelayQueue and Grouping: one block  AOp o; ARead (whole queue); ATick delay;
+   AEmit x nit  per applicable operation; after every block the pipeline is synchronised and idle again (PSync) *)
+Theorem C02_cover_sequential_pipeline_partial : forall P, let C := pc_reader P in
+  c_faults C = [] -> mask_ok C -> pc_filter P = None ->
+  forall ops s, PSync P s -> ops_covered C (p_world s) ops ->
+  exists h s' obs, block_hist P s ops h /\ prun P s h [] = Done (s', obs) /\ PSync P s' /\
+    Cover C (w_fs (p_world s')) (p_k s') (p_r s').
+Proof. exact blocks_cover. Qed.
+Print Assumptions C02_cover_sequential_pipeline_partial.
+
+(* the state right after Inotify.__init__ is such a state *)
+Theorem C02_pinit_sync : forall P w s0, c_faults (pc_reader P) = [] -> wf_fs w ->
+  fisdir (c_root (pc_reader P)) (w_fs w) = true -> pinit P w = Some s0 -> PSync P s0 /\ p_world s0 = w /\ p_out s0 = [].
+Proof. exact pinit_sync. Qed.
+Print Assumptions C02_pinit_sync.
 
 (* ---- 2d. the probe: from a synchronised state, creating a fresh file [name] in ANY directory in scope makes the reader
    produce, first, a raw IN_CREATE event whose src_path is the real path d/name; the emitter turns it into
@@ -234,5 +307,32 @@ Proof.
   eapply ops_covered_cons; [vm_compute; reflexivity | apply co_quiet; [exact I | now apply Na] |].
   eapply ops_covered_cons; [vm_compute; reflexivity | apply co_rmdir; [now apply Nb | vm_compute; discriminate] |].
   eapply ops_covered_cons; [vm_compute; reflexivity | apply co_rmdir; [now apply Na | vm_compute; discriminate] |].
+  exact I.
+Qed.
+
+(* the directory moves: entirely outside the tree, then into the tree *)
+Example C02_ops_covered_dir_moves_nonvacuous :
+  ops_covered (cfgx true true) w0
+    [Rename (sub (sub pO 100) 101) (sub pO 101); Rename (sub pO 100) (sub pR 100);
+     Mkdir (sub pR 97); Rename (sub pR 100) (sub pR 97)].                     (* over the empty directory a *)
+Proof.
+  assert (GR : gpath pR) by (split; [discriminate | reflexivity]).
+  assert (GO : gpath pO) by (split; [discriminate | reflexivity]).
+  assert (Na : forall n, valid_name [n] = true -> npath (sub pR n)) by (intros; now apply npath_sub).
+  assert (No : forall n, valid_name [n] = true -> npath (sub pO n)) by (intros; now apply npath_sub).
+  assert (Nb : forall m n, valid_name [m] = true -> valid_name [n] = true -> npath (sub (sub pO m) n)).
+  { intros. apply npath_sub; [apply npath_gpath; now apply No | assumption]. }
+  eapply ops_covered_cons; [vm_compute; reflexivity | |].
+  { eapply co_rename_dir_plain; try (now apply No); try (now apply Nb); try (vm_compute; reflexivity);
+      try (vm_compute; discriminate).
+    right. split; intros [H|H]; vm_compute in H; discriminate. }
+  eapply ops_covered_cons; [vm_compute; reflexivity | |].
+  { eapply co_rename_dir_in; try (now apply No); try (now apply Na); try reflexivity; try (vm_compute; reflexivity);
+      try (right; vm_compute; reflexivity).
+    intros [H|H]; vm_compute in H; discriminate. }
+  eapply ops_covered_cons; [vm_compute; reflexivity | apply co_mkdir; now apply Na |].
+  eapply ops_covered_cons; [vm_compute; reflexivity | |].
+  { eapply co_rename_dir_over; try (now apply Na); try reflexivity; try (vm_compute; reflexivity);
+      try (right; vm_compute; reflexivity); try (vm_compute; discriminate). }
   exact I.
 Qed.
